@@ -475,16 +475,6 @@ def draw_vals(ch, label, dc, n):
     return ch.draw(label, vals_strategy(dc, n))
 
 
-def draw_left(ch, tag='L', kinds=SPARSE, max_m=3, max_n=6):
-    k = ch.choice(f'{tag}.kind', list(kinds))
-    if k in ('SV', 'SLV'):
-        s = [ch.int(f'{tag}.n', 1, max_n)]
-    else:
-        s = [ch.int(f'{tag}.m', 1, max_m), ch.int(f'{tag}.n', 1, max_n)]
-    v = draw_vals(ch, f'{tag}.vals', dchar(k), nelem(s))
-    return {'k': k, 's': s, 'v': v}
-
-
 def prop_binop(ch, ctx):
     mode = ch.choice('mode', ['bin', 'bin', 'bin', 'inp', 'inp', 'inp', 'ref', 'ref', 'bin_alias', 'inp_alias'])
     ops = ARITH + CMP + LOGIC if not mode.startswith('inp') else ARITH + LOGIC
@@ -1546,21 +1536,38 @@ def spec_log(tag, spec):
     return [[f'{tag}.kind', spec['k']], [f'{tag}.shape', list(spec['s'])], [f'{tag}.vals', list(spec['v'])]]
 
 
-def exh_cases_binop(max_elems):
+class Blocks:
+    """Block-level sharding: a block (one left operand / one index) belongs to exactly one shard."""
+
+    def __init__(self, shard, nshards):
+        self.shard, self.nshards, self.i = shard, nshards, -1
+
+    def mine(self):
+        self.i += 1
+        return self.i % self.nshards == self.shard
+
+
+def exh_cases_binop(max_elems, blocks):
     lspecs = {k: list(exh_specs(k, max_elems)) for k in SPARSE}
     rspecs = {k: list(exh_specs(k, max_elems)) for k in R_KINDS}
     for mode in MODES:
         ops = ARITH + LOGIC if mode.startswith('inp') else ARITH + CMP + LOGIC
         for op in ops:
             for lk in (('SLV', 'SAb') if op in LOGIC else SPARSE):
+                rks = r_kinds_for(mode, op, lk)
                 for ls in lspecs[lk]:
-                    head = [['mode', mode], ['op', op]] + spec_log('L', ls)
+                    if not blocks.mine(): continue
                     if mode.endswith('alias'):
-                        yield 'binop', head, (mode, op, ls, None)
+                        yield (mode, op, ls, None)
                         continue
-                    for rk in r_kinds_for(mode, op, lk):
+                    for rk in rks:
                         for rs in rspecs[rk]:
-                            yield 'binop', head + spec_log('R', rs), (mode, op, ls, rs)
+                            yield (mode, op, ls, rs)
+
+
+def log_binop(args):
+    mode, op, ls, rs = args
+    return [['mode', mode], ['op', op]] + spec_log('L', ls) + ([] if rs is None else spec_log('R', rs))
 
 
 def exh_axis(n, full=True):
@@ -1597,23 +1604,31 @@ def exh_indices(shape, full=True):
     return out
 
 
-def exh_cases_getitem(max_elems):
+def exh_cases_getitem(max_elems, blocks):
     for lk in SPARSE:
         for ls in exh_specs(lk, max_elems):
+            if not blocks.mine(): continue
             for ispec in exh_indices(ls['s']):
-                yield 'getitem', spec_log('L', ls) + [['I', ispec]], (ls, ispec)
+                yield (ls, ispec)
+
+
+def log_getitem(args):
+    ls, ispec = args
+    return spec_log('L', ls) + [['I', ispec]]
 
 
 EXH_V_KINDS = ['pyf', 'pyb', 'lstf', 'lstb', 'ndf', 'ndb', 'SV', 'SLV', 'SA', 'SAb']
 EXH_V_KINDS_QUICK = ['pyf', 'pyb', 'lstf', 'ndb', 'SV', 'SLV', 'SA']
 
 
-def exh_cases_setitem(max_elems):
+def exh_cases_setitem(max_elems, blocks):
     cache = {}
     for lk in SPARSE:
         for shape in exh_shapes(lk, max_elems):
             z = np.zeros(shape)
+            lvals = [list(v) for v in itertools.product(EXH[dchar(lk)], repeat=nelem(shape))]
             for ispec in exh_indices(shape, full=max_elems > 2):
+                if not blocks.mine(): continue
                 ni = mk_index(ispec)[1]
                 ss = np.shape(z[ni])
                 if nelem(ss) > max_elems: continue
@@ -1626,56 +1641,63 @@ def exh_cases_setitem(max_elems):
                         if key not in cache:
                             cache[key] = [{'k': vk, 's': vs, 'v': list(v)} for v in itertools.product(EXH[dchar(vk)], repeat=nelem(vs))]
                         vspecs += cache[key]
-                for vals in itertools.product(EXH[dchar(lk)], repeat=nelem(shape)):
-                    ls = {'k': lk, 's': shape, 'v': list(vals)}
-                    head = spec_log('L', ls) + [['I', ispec]]
+                for vals in lvals:
+                    ls = {'k': lk, 's': shape, 'v': vals}
                     for vspec in vspecs:
-                        yield 'setitem', head + spec_log('V', vspec), (ls, ispec, vspec)
+                        yield (ls, ispec, vspec)
 
 
-def exh_cases_reduce(max_elems):
+def log_setitem(args):
+    ls, ispec, vspec = args
+    return spec_log('L', ls) + [['I', ispec]] + spec_log('V', vspec)
+
+
+def exh_cases_reduce(max_elems, blocks):
     for lk in SPARSE:
         for ls in exh_specs(lk, max_elems):
+            if not blocks.mine(): continue
             for method in METHODS:
                 for axis in (None, 0, 1, 2):
                     for keepdims in (False, True):
                         for how in ('kw', 'pos', 'default'):
-                            yield 'reduce', spec_log('L', ls) + [['method', method], ['axis', axis], ['keepdims', keepdims], ['how', how]], \
-                                (ls, method, axis, keepdims, how)
+                            yield (ls, method, axis, keepdims, how)
 
 
-EXH_ENGINES = [('binop', exh_cases_binop, lambda c, a: core_binop(c, *a)),
-               ('getitem', exh_cases_getitem, lambda c, a: core_getitem(c, *a)),
-               ('setitem', exh_cases_setitem, lambda c, a: core_setitem(c, *a)),
-               ('reduce', exh_cases_reduce, lambda c, a: core_reduce(c, *a))]
+def log_reduce(args):
+    ls, method, axis, keepdims, how = args
+    return spec_log('L', ls) + [['method', method], ['axis', axis], ['keepdims', keepdims], ['how', how]]
+
+
+EXH_ENGINES = [('binop', exh_cases_binop, core_binop, log_binop),
+               ('getitem', exh_cases_getitem, core_getitem, log_getitem),
+               ('setitem', exh_cases_setitem, core_setitem, log_setitem),
+               ('reduce', exh_cases_reduce, core_reduce, log_reduce)]
 
 
 def exhaustive(_ch, ctx):
-    """Enumerates the slice ``i % nshards == shard`` of every finite space; failures are replayable logs."""
+    """Enumerates this shard's blocks of every finite space; failures are stored as replayable logs."""
     max_elems = 2 if ctx.tier == 'quick' else 3
     done = getattr(ctx, 'exhaustive_done', None)
     if done is None: done = ctx.exhaustive_done = {}
     name0 = ctx.cur_name
     stats = ctx.per_prop.setdefault(name0, {'evaluations': 0, 'rejected': 0, 'skipped_time': 0})
-    shard, nshards = ctx.shard, ctx.nshards
-    i = -1
-    for check, gen, run in EXH_ENGINES:
+    blocks = Blocks(ctx.shard, ctx.nshards)
+    for check, gen, run, mklog in EXH_ENGINES:
         ctx.cur_name = 'exh.' + check
         n = 0
-        for check_name, log, args in gen(max_elems):
-            i += 1
-            if i % nshards != shard: continue
+        for args in gen(max_elems, blocks):
             if (n & 0xfff) == 0 and not ctx.time_left():
                 stats['skipped_time'] += 1
                 break
             n += 1
             try:
-                run(ctx, args)
+                run(ctx, *args)
             except Violation as v:
-                exh_record(ctx, check_name, log, v)
+                exh_record(ctx, check, mklog(args), v)
         ctx.evaluations += n
         stats['evaluations'] += n
-        done[f'{check}:max_elems={max_elems}'] = done.get(f'{check}:max_elems={max_elems}', 0) + n
+        key = f'{check}:max_elems={max_elems}'
+        done[key] = done.get(key, 0) + n
     ctx.cur_name = name0
 
 
